@@ -54,6 +54,12 @@ enum Ins {
     Cond(usize),
     Jmp(usize),
     Ret,
+    /// x86 only: `mov eax, imm32` whose immediate bytes are themselves two instructions (`inc ebx; inc esi`), so that a
+    /// branch to the second byte decodes an overlapping instruction stream that re-joins at the next instruction
+    Ovl,
+    /// x86 only: conditional / unconditional branch to the second byte of the `Ovl` at this index
+    CondMid(usize),
+    JmpMid(usize),
 }
 
 struct Isa {
@@ -74,8 +80,9 @@ fn assemble(arch: &str, prog: &[Ins], fill_pos: usize, fill_len: usize) -> (Vec<
             match i {
                 Ins::Inc => 2,
                 Ins::Nop => 1,
-                Ins::Cond(_) | Ins::Jmp(_) => 2,
+                Ins::Cond(_) | Ins::Jmp(_) | Ins::CondMid(_) | Ins::JmpMid(_) => 2,
                 Ins::Ret => 1,
+                Ins::Ovl => 5,
             }
         } else if mips {
             match i {
@@ -133,7 +140,15 @@ fn assemble(arch: &str, prog: &[Ins], fill_pos: usize, fill_len: usize) -> (Vec<
                 Ins::Nop => emit(&[0x90], &mut starts, &mut bytes),
                 Ins::Cond(t) => emit(&[0x74, (target(*t) as i64 - (here as i64 + 2)) as u8], &mut starts, &mut bytes),
                 Ins::Jmp(t) => emit(&[0xeb, (target(*t) as i64 - (here as i64 + 2)) as u8], &mut starts, &mut bytes),
+                Ins::CondMid(t) => emit(&[0x74, (target(*t) as i64 + 1 - (here as i64 + 2)) as u8], &mut starts, &mut bytes),
+                Ins::JmpMid(t) => emit(&[0xeb, (target(*t) as i64 + 1 - (here as i64 + 2)) as u8], &mut starts, &mut bytes),
                 Ins::Ret => emit(&[0xc3], &mut starts, &mut bytes),
+                Ins::Ovl => {
+                    emit(&[0xb8, 0xff, 0xc3, 0xff, 0xc6], &mut starts, &mut bytes);
+                    // the overlapping stream: inc ebx at +1, inc esi at +3, re-joining at +5
+                    starts.insert(here + 1, 2);
+                    starts.insert(here + 3, 2);
+                }
             }
         } else if mips {
             let r = 8 + (k as u32 % 6);
@@ -152,6 +167,7 @@ fn assemble(arch: &str, prog: &[Ins], fill_pos: usize, fill_len: usize) -> (Vec<
                     b.extend_from_slice(&word(0));
                     emit(&b, &mut starts, &mut bytes);
                 }
+                Ins::Ovl | Ins::CondMid(_) | Ins::JmpMid(_) => panic!("x86-only instruction"),
             }
         } else if arch == "ppc" {
             let r = 3 + (k as u32 % 6);
@@ -162,6 +178,7 @@ fn assemble(arch: &str, prog: &[Ins], fill_pos: usize, fill_len: usize) -> (Vec<
                 Ins::Cond(t) => emit(&word(0x41820000 | (rel(*t) & 0xfffc)), &mut starts, &mut bytes),
                 Ins::Jmp(t) => emit(&word(0x48000000 | (rel(*t) & 0x03fffffc)), &mut starts, &mut bytes),
                 Ins::Ret => emit(&word(0x4e800020), &mut starts, &mut bytes),
+                Ins::Ovl | Ins::CondMid(_) | Ins::JmpMid(_) => panic!("x86-only instruction"),
             }
         } else {
             let r = 1 + (k as u32 % 6);
@@ -172,6 +189,7 @@ fn assemble(arch: &str, prog: &[Ins], fill_pos: usize, fill_len: usize) -> (Vec<
                 Ins::Cond(t) => emit(&word(0xb4000000 | ((rel(*t) & 0x7ffff) << 5)), &mut starts, &mut bytes),
                 Ins::Jmp(t) => emit(&word(0x14000000 | (rel(*t) & 0x03ffffff)), &mut starts, &mut bytes),
                 Ins::Ret => emit(&word(0xd65f03c0), &mut starts, &mut bytes),
+                Ins::Ovl | Ins::CondMid(_) | Ins::JmpMid(_) => panic!("x86-only instruction"),
             }
         }
     }
@@ -187,6 +205,9 @@ fn prog_json(prog: &[Ins]) -> Value {
             Ins::Cond(t) => format!("cond{}", t),
             Ins::Jmp(t) => format!("jmp{}", t),
             Ins::Ret => "ret".to_string(),
+            Ins::Ovl => "ovl".to_string(),
+            Ins::CondMid(t) => format!("condmid{}", t),
+            Ins::JmpMid(t) => format!("jmpmid{}", t),
         })
         .collect::<Vec<_>>())
 }
@@ -202,6 +223,12 @@ fn prog_parse(v: &Value) -> Vec<Ins> {
                 Ins::Nop
             } else if s == "ret" {
                 Ins::Ret
+            } else if s == "ovl" {
+                Ins::Ovl
+            } else if let Some(t) = s.strip_prefix("condmid") {
+                Ins::CondMid(t.parse().unwrap())
+            } else if let Some(t) = s.strip_prefix("jmpmid") {
+                Ins::JmpMid(t.parse().unwrap())
             } else if let Some(t) = s.strip_prefix("cond") {
                 Ins::Cond(t.parse().unwrap())
             } else {
@@ -374,8 +401,9 @@ fn check(acc: &mut Acc, c: &Case) {
     acc.count("evaluations", 1);
     acc.count("transitions", 1);
     let shape = {
-        let has_back = c.prog.iter().enumerate().any(|(k, i)| matches!(i, Ins::Cond(t) | Ins::Jmp(t) if *t <= k));
-        format!("{}{}{}", archs_family(arch), if has_back { ",backward-branch" } else { "" }, if c.fill_len > 0 { ",window-crossing" } else { "" })
+        let has_back = c.prog.iter().enumerate().any(|(k, i)| matches!(i, Ins::Cond(t) | Ins::Jmp(t) | Ins::CondMid(t) | Ins::JmpMid(t) if *t <= k));
+        let overlapping = c.prog.iter().any(|i| matches!(i, Ins::CondMid(_) | Ins::JmpMid(_)));
+        format!("{}{}{}{}", archs_family(arch), if has_back { ",backward-branch" } else { "" }, if c.fill_len > 0 { ",window-crossing" } else { "" }, if overlapping { ",overlapping-decode" } else { "" })
     };
     let mut options = Options::new();
     let mut manual_edge: Option<(u64, u64, bool)> = None;
@@ -522,16 +550,34 @@ fn archs_family(a: &str) -> &'static str {
     }
 }
 
-fn programs(n: usize) -> Vec<Vec<Ins>> {
+fn programs(n: usize, x86: bool) -> Vec<Vec<Ins>> {
     let mut opts: Vec<Ins> = vec![Ins::Inc, Ins::Nop, Ins::Ret];
     for t in 0..n {
         opts.push(Ins::Cond(t));
         opts.push(Ins::Jmp(t));
     }
+    if x86 && n >= 2 {
+        opts.push(Ins::Ovl);
+        for t in 0..n {
+            opts.push(Ins::CondMid(t));
+            opts.push(Ins::JmpMid(t));
+        }
+    }
     let mut out: Vec<Vec<Ins>> = vec![vec![]];
     for _ in 0..n {
         out = out.into_iter().flat_map(|p| opts.iter().map(move |o| { let mut q = p.clone(); q.push(*o); q })).collect();
     }
+    // overlapping decodes: every mid-instruction branch must point at an `Ovl`, and an `Ovl` is only of interest
+    // when some branch enters it in the middle
+    out.retain(|p| {
+        let mids: Vec<usize> = p.iter().filter_map(|i| match i { Ins::CondMid(t) | Ins::JmpMid(t) => Some(*t), _ => None }).collect();
+        let has_ovl = p.iter().any(|i| *i == Ins::Ovl);
+        if mids.is_empty() {
+            !has_ovl
+        } else {
+            mids.iter().all(|t| p.get(*t) == Some(&Ins::Ovl))
+        }
+    });
     out
 }
 
@@ -548,7 +594,7 @@ fn run(ctx: &Ctx) -> Acc {
             if n == 4 && !(*arch == "amd64" || *arch == "mips" || *arch == "aarch64") {
                 continue;
             }
-            for prog in programs(n) {
+            for prog in programs(n, x86) {
                 unit += 1;
                 if !ctx.mine(unit) {
                     continue;
